@@ -233,8 +233,60 @@ def _failure(rec, field, desc):
                    detail=f"{rec['q']} [{rec['form']}] {desc}")
 
 
+def snapshot_case(form):
+    """A pickled parquet read carries what the originating process planned (file list, schema, checksum): loading it
+    elsewhere, after a file was ADDED to the dataset directory, must give the collection that was pickled — same
+    name, partition count and rows — without re-planning from the raw path."""
+    import os
+    import pickle
+    import shutil
+    import subprocess
+    import sys
+    import tempfile
+
+    import pandas as pd
+
+    import dask_expr as dx
+
+    tmp = tempfile.mkdtemp(prefix="vc16_")
+    try:
+        path = os.path.join(tmp, "ds")
+        pdf = pd.DataFrame({"a": range(36), "b": range(36)})
+        dx.from_pandas(pdf, npartitions=4).to_parquet(path)
+        r = dx.read_parquet(path)
+        q = r[r.a >= 0][["a", "b"]] if form != "logical" else r
+        if form == "optimized":
+            q = q.optimize()
+        elif form == "lowered":
+            q = dx.new_collection(q.expr.lower_completely())
+        want = (q._name, q.npartitions, len(q.compute()))
+        blob = pickle.dumps(q)
+        extra = pd.DataFrame({"a": range(100, 110), "b": range(10)}, index=range(36, 46))
+        extra.to_parquet(os.path.join(path, "part.9.parquet"))
+        code = ("import pickle,sys,dask; dask.config.set(scheduler='sync'); x=pickle.loads(sys.stdin.buffer.read()); "
+                "print(repr((x._name, x.npartitions, len(x.compute()))))")
+        out = subprocess.run([sys.executable, "-W", "ignore", "-c", code], input=blob, capture_output=True,
+                             env=dict(os.environ, PYTHONPATH=os.pathsep.join(sys.path)))
+        if out.returncode != 0:
+            return f"loading the pickled {form} parquet collection failed: {out.stderr.decode()[-200:]}"
+        got = eval(out.stdout.decode().strip().splitlines()[-1])
+        if got != want:
+            return f"{form} parquet read pickled as (name, npartitions, rows)={want}; the receiving process sees {got} after a file was added to the directory"
+        return None
+    finally:
+        shutil.rmtree(tmp, ignore_errors=True)
+
+
 def support(ctx, broken):
     sup = Support()
+    snap_failures = []
+    for form in ("logical", "optimized", "lowered"):
+        try:
+            msg = snapshot_case(form)
+        except Exception as ex:  # noqa: BLE001
+            msg = f"snapshot case raised {type(ex).__name__}: {str(ex)[:160]}"
+        if msg:
+            snap_failures.append(Failure(sig={"kind": "pickle", "form": form, "op": "read_parquet[snapshot]"}, case={"snapshot": form}, detail=msg))
     pq = sp.tmp_parquet()
     # the fully-filtered parquet reads are left to C15 (their answer depends on what the process planned before: the `_cached_plan` key finding)
     qids = [q for q in sp.POOL if "pq_none" not in sp.flags(q).get("tags", [])]
@@ -266,10 +318,15 @@ def support(ctx, broken):
                 sup.failures.append(fl)
     # every distinct failing signature goes into the evidence (the replay file only carries the first one)
     sup.distribution["failures_found"] = [{"sig": f.sig, "detail": f.detail[:240]} for f in sup.failures]
+    sup.executed += 3
+    sup.failures = snap_failures + sup.failures
     return sup
 
 
 def replay(case):
+    if "snapshot" in case:
+        msg = snapshot_case(case["snapshot"])
+        return Failure(sig={}, case=case, detail=msg) if msg else None
     pq = sp.tmp_parquet()
     recs = originate([(case["q"], case["form"], case.get("v"))], pq)
     got, _ = ship(recs, pq)
